@@ -271,7 +271,7 @@ def _describe(f) -> str:
     if isinstance(f, Function):
         try:
             r = f(CT("x"))
-        except (Unsupported, InterpRaised):
+        except (Unsupported, InterpRaised, TypeError, ValueError, AttributeError):
             return f"fn:{getattr(f.node, 'name', 'lambda')}"
         return r.key() if isinstance(r, CT) else f"fn:{getattr(f.node, 'name', 'lambda')}"
     raise Unsupported("aggregator that is neither a name nor a function of the analysed code")
@@ -348,7 +348,6 @@ def _ct_extras():
     if getattr(CT, "_tempfeat_extras", False):
         return
     CT._tempfeat_extras = True
-    CT.shape = property(lambda self: self._mk("shape", self))
     plain_apply = CT.apply
 
     def apply(self, f):
